@@ -61,8 +61,9 @@ def close(a, b, tol):
     if a.shape != b.shape:
         return False
     both_inf = np.isinf(a) & np.isinf(b) & (np.sign(a) == np.sign(b))
+    both_nan = np.isnan(a) & np.isnan(b)
     with np.errstate(invalid='ignore'):
-        return bool(np.all(both_inf | (np.abs(a - b) <= tol)))
+        return bool(np.all(both_inf | both_nan | (np.abs(a - b) <= tol)))
 
 
 def maxdiff(a, b):
@@ -338,8 +339,8 @@ class E3Session(SessionBase):
                     ma, mr = metric_dict(pa.get(key, [])), metric_dict(pr.get(key, []))
                     ma.pop('path_bandwidth', None)
                     mr.pop('path_bandwidth', None)
-                    if ma != mr:
-                        d = {k: (ma.get(k), mr.get(k)) for k in set(ma) | set(mr) if ma.get(k) != mr.get(k)}
+                    d = {k: (ma.get(k), mr.get(k)) for k in sorted(set(ma) | set(mr)) if not _same_value(ma.get(k), mr.get(k))}
+                    if d:
                         raise Violation('C16', 'reported-metrics-depend-on-batch', f'{who} {key}: {d}')
 
     # ---------------------------------------------------------------------------------------------------------
@@ -736,8 +737,30 @@ class E3Session(SessionBase):
         if [r['response-id'] for r in rows] != [str(x['response-id']) for x in doc['response']]:
             raise Violation('C19', 'csv-rows-differ-from-responses', f'{[r["response-id"] for r in rows]}')
         margin = self.world['eqpt']['SI'][0].get('sys_margins', 0)
-        for row, it in zip(rows, out['items']):
+        rev_cols = [('reversed path OSNR-0.1nm (average)', 'OSNR-0.1nm'), ('reversed path SNR-0.1nm (average)', 'SNR-0.1nm'),
+                    ('reversed path SNR-bandwidth (average)', 'SNR-bandwidth'),
+                    ('reversed path SNR-0.1nm (min)', 'lowest_SNR-0.1nm'), ('reversed path SNR-0.1nm (max)', 'biggest_SNR-0.1nm'),
+                    ('reversed path PDL_penalty', 'PDL_penalty'), ('reversed path CD_penalty', 'CD_penalty'),
+                    ('reversed path PMD_penalty', 'PMD_penalty')]
+        for row, it, resp in zip(rows, out['items'], doc['response']):
             who = f'csv row {row["response-id"]}'
+            props = (resp.get('no-path') or resp).get('path-properties')
+            if props is None:
+                extra = {k: v for k, v in row.items() if k not in ('response-id', 'Pass?') and v != ''}
+                if extra:
+                    raise Violation('C19', 'csv-no-path-row-carries-values', f'{who}: {extra}')
+            za = metric_dict(props['z-a-path-metric']) if props and 'z-a-path-metric' in props else None
+            for col, metric in rev_cols:
+                cell = row[col]
+                if za is None:
+                    if cell != '':
+                        raise Violation('C19', 'csv-reverse-columns-without-reverse-metrics', f'{who}: {col} = {cell}')
+                    continue
+                want = za[metric]
+                same = cell == str(want) or (isinstance(want, (int, float)) and cell != '' and
+                                             abs(float(cell) - round(want, 2)) < 1e-9)
+                if not same:
+                    raise Violation('C19', 'csv-reverse-metric-wrong', f'{who}: {col} = {cell!r}, response {want!r}')
             if it['blocking'] is not None:
                 if row['Pass?'] != it['blocking']:
                     raise Violation('C19', 'csv-blocking-reason-wrong', f'{who}: {row["Pass?"]} vs {it["blocking"]}')
@@ -790,6 +813,25 @@ class E3Session(SessionBase):
                 self.st.notes[f'plan_error:{kind}:{str(e)[:70]}@{tb.name}:{tb.lineno}'] += 1
             self._unchanged_checks(f'after failed plan ({kind})')
             self.plan_kinds.append('fail')
+            if 'C16' in self.props and not isinstance(e, InjectedFault):
+                # a batch may only fail on the long-lived network if it also fails on a fresh state
+                key = 'batch:' + jdigest([data, self.sim_doc])
+                if key not in self.ref_cache:
+                    eq, net, _ = self._fresh_designed()
+                    try:
+                        self._run_planning(net, eq, data)
+                        self.ref_cache[key] = None
+                    except PLAN_ERRORS as e2:
+                        self.ref_cache[key] = type(e2).__name__
+                if self.ref_cache[key] is None:
+                    raise Violation('C16', 'batch-fails-on-the-used-network-but-not-on-a-fresh-one',
+                                    f'{kind}: {str(e)[:200]}')
+                # ... and only if at least one of its requests (with its disjunction group) fails alone
+                groups = self._groups(data)
+                ids = [str(r['request-id']) for r in data['path-request']]
+                if len(set(ids)) == len(ids) and all(self._reference(data, groups[i])['ok'] for i in ids):
+                    raise Violation('C16', 'batch-fails-although-every-request-succeeds-alone',
+                                    f'{kind}: {str(e)[:200]}')
             return {'kind': f'fail:{kind}'}
         if fault:
             self.st.notes['armed_fault_did_not_fire'] += 1
@@ -837,6 +879,12 @@ class E3Session(SessionBase):
     def finish(self):
         TAP.reset()
         gn.reset_process_globals()
+
+
+def _same_value(a, b):
+    if isinstance(a, float) and isinstance(b, float) and math.isnan(a) and math.isnan(b):
+        return True
+    return a == b
 
 
 def _channel_frequencies(rq, eq, path):
@@ -911,13 +959,29 @@ def request_strategy(draw, world, rid, swarm):
     r = {'request-id': str(rid), 'source': f'trx {a}', 'destination': f'trx {b}', 'src-tp-id': f'trx {a}',
          'dst-tp-id': f'trx {b}', 'bidirectional': swarm['bidir'] and draw(st.booleans()),
          'path-constraints': {'te-bandwidth': tb}}
-    if swarm['include'] and draw(st.integers(0, 2)) == 0:
+    via_links = [(l1, l2) for l1 in world['meta']['links'] for l2 in world['meta']['links']
+                 if l1['from'] == a and l1['to'] == l2['from'] and l2['to'] == b and l1['to'] not in (a, b)]
+    if swarm['include'] and via_links and draw(st.integers(0, 3)) == 0:
+        # an explicit route: line elements of two adjacent links a -> m -> b, in order
+        l1, l2 = draw(st.sampled_from(via_links))
+        hop = draw(st.sampled_from(['LOOSE', 'STRICT']))
+        nodes = [draw(st.sampled_from([l1['first'], l1['last']])), draw(st.sampled_from([l2['first'], l2['last']]))]
+        r['explicit-route-objects'] = {'route-object-include-exclude': [
+            {'explicit-route-usage': 'route-include-ero', 'index': k,
+             'num-unnum-hop': {'node-id': n, 'link-tp-id': 'link-tp-id is not used', 'hop-type': hop}}
+            for k, n in enumerate(nodes)]}
+    elif swarm['include'] and draw(st.integers(0, 2)) == 0:
         hops = []
         for k in range(draw(st.integers(1, 2))):
             # the far end first makes many two-node lists unsatisfiable (LOOSE falls back, STRICT blocks)
             via = draw(st.sampled_from([b, a] + sites))
             hop = draw(st.sampled_from(['LOOSE', 'LOOSE', 'STRICT']))
             node = f'roadm {via}'
+            if draw(st.integers(0, 2)) == 0:
+                line = [e['uid'] for e in world['topo']['elements'] if e['type'] in ('Fiber', 'Edfa', 'Fused',
+                                                                                       'Multiband_amplifier')]
+                if line:
+                    node = draw(st.sampled_from(line))
             if raising and draw(st.integers(0, 2)) == 0:
                 node = 'roadm nowhere'
             hops.append({'explicit-route-usage': 'route-include-ero', 'index': k,
@@ -946,6 +1010,10 @@ def near_duplicate(draw, req, rid):
         tb['output-power'] = draw(st.sampled_from([1e-3, 2e-3, None]))
     elif what == 3 and tb.get('trx_mode') is None:
         tb['spacing'] = draw(st.sampled_from(SPACINGS))
+    elif what in (4, 5) and len(hops) > 1:
+        del hops[draw(st.integers(0, len(hops) - 1))]
+        for k, h in enumerate(hops):
+            h['index'] = k
     return dup
 
 
@@ -985,6 +1053,12 @@ def make_machine(prop, tier, cfg):
         k = draw(st.integers(0, 7))
         if k == 0:
             return draw(worlds.multiband_world_strategy())
+        if k == 1 and prop in ('C16', 'C19'):
+            w = draw(worlds.raman_world_strategy())
+            w['eqpt']['Transceiver'].append(draw(worlds.transceiver_strategy('trx9', 3)))
+            w['sim'] = {'raman_params': {'flag': True, 'result_spatial_resolution': 10e3,
+                                         'solver_spatial_resolution': 500}, 'nli_params': {'method': 'gn_model_analytic'}}
+            return w
         return draw(worlds.world_strategy('small' if prop == 'C13' else 'mesh'))
 
     class E3Machine(RuleBasedStateMachine):
@@ -1043,7 +1117,7 @@ def make_machine(prop, tier, cfg):
             self.sess.apply('plan', {'data': deepcopy(self.batches[which % len(self.batches)]), 'fault': None,
                                      'tag': 'again'})
 
-        @precondition(lambda self: self.swarm['sim'])
+        @precondition(lambda self: self.swarm['sim'] and self.world.get('flavour') != 'raman')
         @rule(which=st.integers(0, len(SIM_DOCS) - 1))
         def set_sim(self, which):
             self.sess.apply('set_sim', {'doc': SIM_DOCS[which]})
